@@ -5,7 +5,7 @@
    mode >= the order is rejected.  One generic lemma (no well-formedness hypothesis), then one corollary per family on top of the
    validator-level reconstruction theorems.) *)
 From Coq Require Import List Arith ZArith Lia Bool Ring.
-From TLV Require Import Base.Shape Base.PyList Base.Tensor Base.BigSum Base.Ops Model.Base Model.Factorized
+From TLV Require Import Base.Shape Base.PyList Base.Tensor Base.BigSum Base.Ops Model.Base Model.BaseExt Model.Factorized
   Proofs.BaseProofs Proofs.BaseProofs2 Proofs.BaseProofs3 Proofs.FactorizedProofs Proofs.FactorizedProofs3 Proofs.FactorizedProofs4 Proofs.FactorizedProofs5
   Proofs.FactorizedProofs7 Proofs.FactorizedProofs8 Proofs.FactorizedProofs9 Proofs.FactorizedProofs10 Proofs.FactorizedProofs12.
 Import ListNotations.
@@ -149,6 +149,52 @@ Proof.
     cbn [nth]. apply Hg; tauto.
 Qed.
 End P.
+
+(* ---------- negative unfolding modes: mode -k of an order-N reconstruction IS mode N - k; below -N an error ---------- *)
+Section N.
+Variable F : Type.
+Variable Op : fops F.
+Notation zero := (f0 Op).
+Notation tensor := (tensor F).
+Definition neg_modes_of (rec : res tensor) (unf : nat -> res tensor) (N : nat) : Prop :=
+  (forall k, 0 < k <= N -> unfolded_neg Op rec k = unf (N - k)) /\ (forall k, N < k -> unfolded_neg Op rec k = Err).
+Lemma neg_modes_of_unfold rec unf N : neg_modes_of rec unf N <->
+  (forall k, 0 < k <= N -> unfolded_neg Op rec k = unf (N - k)) /\ (forall k, N < k -> unfolded_neg Op rec k = Err).
+Proof. reflexivity. Qed.
+Lemma dense_neg_modes (rec : res tensor) (t : tensor) shp :
+  rec = Ok t -> shape t = shp -> neg_modes_of rec (fun m => rbind rec (fun x => unfold zero x m)) (length shp).
+Proof.
+  intros -> Hs. unfold neg_modes_of, unfolded_neg. cbn [rbind]. subst shp.
+  destruct (unfold_z_spec zero t) as (_ & H2 & H3). split.
+  - intros k Hk. apply H2. exact Hk.
+  - intros k Hk. apply H3. left. unfold ndim. lia.
+Qed.
+Hypothesis Rth : ring_theory (f0 Op) (f1 Op) (fadd Op) (fmul Op) (fsub Op) (fopp Op) (@eq F).
+Theorem tt_neg_modes (cs : list tensor) shp rk :
+  validate_tt cs = Ok (shp, rk) -> Forall (fun x => 0 < x) rk -> 0 < prod shp ->
+  neg_modes_of (tt_to_tensor Op cs) (tt_to_unfolded Op cs) (length shp).
+Proof. intros Hv Hpos Hp. destruct (tt_validated F Op Rth cs shp rk Hv Hpos Hp) as (t & Ht & Hs & _). exact (dense_neg_modes _ t shp Ht Hs). Qed.
+Theorem tr_neg_modes (cs : list tensor) shp rk :
+  validate_tr cs = Ok (shp, rk) -> Forall (fun x => 0 < x) rk -> 0 < prod shp ->
+  neg_modes_of (tr_to_tensor Op cs) (tr_to_unfolded Op cs) (length shp).
+Proof. intros Hv Hpos Hp. destruct (tr_validated F Op Rth cs shp rk Hv Hpos Hp) as (t & Ht & Hs & _). exact (dense_neg_modes _ t shp Ht Hs). Qed.
+Theorem tucker_neg_modes (core : tensor) fs shp rk :
+  validate_tucker core fs = Ok (shp, rk) -> wf core -> 0 < prod rk -> 0 < prod shp ->
+  neg_modes_of (tucker_to_tensor Op core fs None false) (fun m => tucker_to_unfolded Op core fs m None false) (length shp).
+Proof. intros Hv W Hpr Hp. destruct (tucker_validated F Op Rth core fs shp rk Hv W Hpr Hp) as (t & Ht & Hs & _). exact (dense_neg_modes _ t shp Ht Hs). Qed.
+Theorem ttm_neg_modes (cs : list tensor) shp rk :
+  validate_ttm cs = Ok (shp, rk) -> Forall (fun x => 0 < x) rk ->
+  neg_modes_of (ttm_to_tensor Op cs) (ttm_to_unfolded Op cs) (length shp).
+Proof. intros Hv Hpos. destruct (ttm_validated F Op Rth cs shp rk Hv Hpos) as (t & ns & ms & Ht & Hs & _). exact (dense_neg_modes _ t shp Ht Hs). Qed.
+Hypothesis feqb_eq : forall x y : F, feqb Op x y = true <-> x = y.
+Theorem parafac2_neg_modes (w : option tensor) (A B C : tensor) ps shps R I :
+  validate_parafac2 Op w [A; B; C] ps = Ok (shps, R) -> shape A = [I; R] -> shape B = [R; R] -> w_ok F w R ->
+  neg_modes_of (parafac2_to_tensor Op w [A; B; C] ps) (parafac2_to_unfolded Op w [A; B; C] ps) 3.
+Proof.
+  intros Hv HA HB Hw. destruct (parafac2_validated F Op Rth feqb_eq w A B C ps shps R I Hv HA HB Hw) as (t & K & Ht & _ & _ & _ & _ & Hs & _).
+  exact (dense_neg_modes _ t _ Ht Hs).
+Qed.
+End N.
 
 (* non-vacuity: the hypotheses of tt_views / tr_views / tucker_views / ttm_views hold for small integer decompositions, and the
    generic statement says something: the two views of a 2 x 3 train are determined entry by entry *)
